@@ -323,6 +323,52 @@ def r9_value_word_decision(chk, prog, rule='R9'):
     return n
 
 
+def r11_control_word_decision(chk, prog, rule='R11'):
+    """tokeniser: a word is a control element exactly when it IS one of the characters '(' ')' '!' - a value that
+    merely starts with one of them ('(draft)', '!important') is a value like any other, in every spelling.  The
+    guard of the branch of ArgListIterator::operator++ that stores a control element is evaluated (Engine B, helper
+    functions of the iterator inlined) for every combination of word length {1, 3} x first character"""
+    from ..boolshape import Interp, NeedAtom, Unsupported
+    import itertools
+    ops = [f for f in prog.functions if (f.classq or '') == 'celma::prog_args::detail::ArgListIterator'
+           and f.short == 'operator++' and not f.params and f.body is not None]
+    chk.require(ops, 'ArgListIterator::operator++() not instantiated')
+    n = 0
+    for f in ops:
+        target = None
+        for ifs in (x for x in f.walk() if x.get('k') == 'IfStmt'):
+            kids = [c for c in ifs.get('c', []) if c is not None]
+            if len(kids) >= 2 and any(c.get('k') in CALL_KINDS and callee_is(c, 'setControl') for c in walk(kids[1])) \
+                    and not any(y.get('k') == 'IfStmt' and any(
+                        c.get('k') in CALL_KINDS and callee_is(c, 'setControl') for c in walk(y))
+                        for y in walk(kids[1]) if y is not ifs):
+                target = (ifs, kids[0])
+        if target is None:
+            raise AnalysisBroken('operator++: the branch that stores a control element was not found')
+        ifs, cond = target
+        for length, ch in itertools.product((1, 3), (ord('('), ord(')'), ord('!'), ord('x'), ord('-'))):
+            def other(itp, key, ch=ch, length=length):
+                if key.startswith('this.mpArgV[') or key.endswith('[0]'):
+                    return ch
+                if key.startswith('strlen('):
+                    return length
+                return None
+            it = Interp(f, {'this.mCurrArgStringLen': length, 'this.mArgIndex': 1, 'this.mArgCharPos': 0},
+                        callbacks={'<atom>': other, 'strlen': lambda itp, c, length=length: length}, prog=prog)
+            try:
+                v = bool(it.ev(cond))
+            except (NeedAtom, Unsupported) as e:
+                raise AnalysisBroken('operator++: guard of the control-element branch not interpretable: %s' %
+                                     getattr(e, 'key', e))
+            want = length == 1 and ch in (ord('('), ord(')'), ord('!'))
+            n += 1
+            chk.check(v == want, rule, f.name, "a word of %d character(s) that starts with '%s' is %s" % (
+                length, chr(ch), 'a control element' if want else 'not a control element'), f.loc(ifs),
+                'operator++ decides %s' % ('control element' if v else 'no control element'))
+    chk.require(n >= 10, 'control-word decisions evaluated: %d' % n)
+    return n
+
+
 def run(chk):
     prog, units = rules.prog_args_program()
     chk.units = units
@@ -374,3 +420,5 @@ def run(chk):
     c03.r7_assigned_means_has_value(sub2, prog)
     for o in sub2.obligations:
         chk.check(o['status'] == 'held', 'R10', o['function'], o['what'], o['where'], o.get('detail', ''))
+    chk.rule('R11', "tokeniser: a word is a control element only if it IS '(' ')' or '!'", 10)
+    r11_control_word_decision(chk, prog)
